@@ -184,6 +184,15 @@ var checks = []Check{
 		Assumptions: []string{"perfect failure detector (fd written only by the failing replica's failLabel), as the property states", "KEY_SET = {KEY1} as in the spec"},
 		MustProbe:   []string{"replica_crashed", "primary_about_to_answer", "primary_crashed_mid_replication", "ops_with_crashes"}, MinRunsForProbes: 1000,
 	},
+	{
+		ID: "C16", Pkg: "checks/c16", Instr: coreInstr, Extra: map[string][]string{"distsys/resources": {"resources_access.go"}},
+		QuickRuns: 40000, ThoroughRuns: 2000000, QuickBudgetS: 60, ThoroughBudgetS: 1200, ShrinkS: 45,
+		Rule: "one run = one drawn system with drawn sizes. Level A (real generated archetypes in the spec world, mapping macros to the letter, the stream picks which archetype takes its next label and resolves every either): dqueue (1-4 consumers, BUFFER_SIZE 1-4): every produced item goes to the requester whose request was committed first, consumers obtain exactly the items sent to them in production order, no buffer above its bound, no deadlock; loadbalancer (1-3 servers, 1-3 clients, BUFFER_SIZE 1-3): BuffersOk, every request forwarded once to a server and answered by exactly one server with the page of its path; proxy (1-3 backends, 1-2 clients, perfect failure detector, EXPLORE_FAIL in 3/4 of the runs with every mayFail branch a stream decision and any number of crashes): ProxyOK as written after every committed step, and a client is told FAIL only when every backend has failed. Level U (real generated archetypes on the real runtime with the real resources over the simulated network): shcounter (2-4 nodes, real 2PC): every node finishes and every replica ends at NUM_NODES; gcounter (2-4 nodes, real CRDT resource): reads never decrease, never exceed NUM_NODES, every node ends at NUM_NODES; shopcart (2-3 nodes, real CRDT AWORSet, 1-4 commands each): once every node has merged every update all nodes read the same cart; nestedcrdtimpl. No assertion of a spec fails anywhere; non-trivial = at least 10 spec steps (A) or 2 committed sections (U); distinct = distinct interleaving digests",
+		Real: append(append([]string{}, realA...), "level U sub-scenarios: distsys/resources 2PC and CRDT resources, net/rpc, gob — real over the simulated network"),
+		Stub: append(append([]string{}, stubA...), stubU...),
+		Assumptions: []string{"dqueue/loadbalancer: CyclicReads/instream/WebPages yield unique items/paths/pages so deliveries are attributable (the spec's constants collapse them)", "proxy: PerfectFD (the property's hypothesis), not the PracticalFD the shipped spec instantiates", "replicatedkv has no spec or test in the tree and is not exercised"},
+		MustProbe: []string{"system_dqueue", "system_loadbalancer", "system_proxy", "proxy_backend_crashed", "proxy_reports_failure", "answered_by_later_backend", "dqueue_two_or_more_consumers", "lb_two_servers_two_clients"}, MinRunsForProbes: 2000,
+	},
 }
 
 func findCheck(id string) *Check {
